@@ -106,15 +106,26 @@ impl ProcfsBase {
             .into_iter()
             // Return the first option that exists in proc_root.
             .find(|base| {
+                // NOTE: We must not use syscalls::fstatat() here. Its error
+                // type records the path of the dirfd, which is looked up
+                // through as_unsafe_path_unchecked() and thus through this
+                // very function -- if /proc is unusable (over-mounted, for
+                // instance) that recursion never terminates.
+                let flags = AtFlags::NO_AUTOMOUNT | AtFlags::SYMLINK_NOFOLLOW;
                 match proc_root {
-                    Some(root) => syscalls::fstatat(root, base),
-                    None => {
-                        syscalls::fstatat(syscalls::AT_FDCWD, PathBuf::from("/proc").join(base))
-                    }
+                    Some(root) => rustix_fs::statat(root, base, flags),
+                    None => rustix_fs::statat(
+                        syscalls::AT_FDCWD,
+                        PathBuf::from("/proc").join(base),
+                        flags,
+                    ),
                 }
                 .is_ok()
             })
-            .expect("at least one candidate /proc/thread-self path should work"),
+            // If none of the candidates work (a broken or over-mounted /proc)
+            // the lookup through the returned path will fail with a proper
+            // error, which is better than panicking here.
+            .unwrap_or_else(|| "self".into()),
         }
     }
     // TODO: Add into_raw_path() that doesn't use symlinks?
